@@ -6,6 +6,7 @@ CONSTANTS
   PVals <- P02
   MaxHist = 2
   Backup = "none"
+  Scenes <- Single
 INVARIANT TypeOK
 INVARIANT OutsideUnchanged
 INVARIANT HistoryIndependent
